@@ -276,6 +276,14 @@ def valPrefix (op : String) (x : Option Val) (p : Int) : Option Val :=
   | some (.bool b) => if op == "not" then some (.bool (!b)) else none
   | none => none
 
+/-- the value of `c ? t : f` when the condition's value is known -/
+def switchVal (c t f : Option Val) : Option Val :=
+  match c with
+  | some (.bool true) => t
+  | some (.bool false) => f
+  | some (.fe n) => if n ≠ 0 then t else f
+  | none => none
+
 mutual
 /-- `Expression::propagate_values` -/
 def valExpr (env : ValEnv) : Expr → Expr × Bool
@@ -293,12 +301,7 @@ def valExpr (env : ValEnv) : Expr → Expr × Bool
     let (t', k2) := valExpr env t
     let (f', k3) := valExpr env f
     let k := k1 || k2 || k3
-    let v : Option Val := match c'.ann.val with
-      | some (.bool true) => (match t'.ann.val with | some x => some x | none => none)
-      | some (.bool false) => (match f'.ann.val with | some x => some x | none => none)
-      | some (.fe n) => if n ≠ 0 then t'.ann.val else f'.ann.val
-      | none => none
-    let (a', k') := orSetVal a k v
+    let (a', k') := orSetVal a k (switchVal c'.ann.val t'.ann.val f'.ann.val)
     (.switch a' c' t' f', k')
   | .var a v =>
     match env.get v with
